@@ -242,9 +242,12 @@ def load_known(prop):
     return out
 
 
-def matches_known(known, case):
+def matches_known(known, case, msg=''):
+    """A listed finding matches a failing case when every plain key of its JSON match equals the case's field and,
+    if the match has the key "what~", that string occurs in the failure message - so that a DIFFERENT failure on
+    the same input class is still reported."""
     for match, text in known:
-        if all(case.get(k) == v for k, v in match.items()):
+        if all(case.get(k) == v for k, v in match.items() if k != 'what~') and match.get('what~', '') in (msg or ''):
             return text
     return None
 
@@ -371,7 +374,7 @@ def run_check(prop, tier, seed):
     # 4. report ----------------------------------------------------------------------------------
     def report(i, kind, msg):
         c = cases[i]
-        ktxt = matches_known(known, c)
+        ktxt = matches_known(known, c, msg)
         if ktxt:
             line = 'KNOWN-FINDING: property=%s %s' % (prop, ktxt)
             if line not in known_lines:
